@@ -69,6 +69,24 @@ def audit_sources():
                     bad.append(f"{f}: {m.group(0)}")
     return bad
 
+def coqchk_audit(prop):
+    """thorough tier: re-check the compiled property file and everything it depends on with the
+    independent checker; its context summary must list no axiom, no type-in-type, no unsafe
+    fixpoint, no assumed positivity"""
+    cmd = f'coqchk -silent -o -Q theories S3db S3db.properties.{prop}'
+    r = sh('timeout 5400 ' + cmd, cwd=os.path.join(ROOT, 'coq'))
+    out = r.stdout + r.stderr
+    problems = []
+    if r.returncode != 0:
+        problems.append('coqchk failed: ' + out[-1200:])
+    for head in ('Axioms', 'Constants/Inductives relying on type-in-type', 'Constants/Inductives relying on unsafe (co)fixpoints',
+                 'Inductives whose positivity is assumed'):
+        m = re.search(r'\* ' + re.escape(head) + r':(.*?)(?=\n\* |\Z)', out, flags=re.S)
+        body = m.group(1).strip() if m else '<missing from coqchk output>'
+        if body != '<none>':
+            problems.append(f'coqchk: {head}: {body[:400]}')
+    return dict(cmd=cmd, problems=problems, summary=out[out.find('CONTEXT SUMMARY'):][:800] if 'CONTEXT SUMMARY' in out else out[-400:])
+
 def proof_audit(prop):
     """Re-check the property's theorem file with coqc; count obligations and assumptions."""
     vf = os.path.join(ROOT, 'coq', 'theories', 'properties', prop + '.v')
@@ -147,6 +165,10 @@ def main():
         proof_problems.append('forbidden constructs: ' + ', '.join(bad))
     if not b['coq_ok']:
         proof_problems.append('coq build failed: ' + b['coq_log'][-800:])
+    chk = None
+    if tier == 'thorough' and b['coq_ok']:
+        chk = coqchk_audit(prop)
+        proof_problems.extend(chk['problems'])
 
     # ---- correspondence + monitors
     ctx = suites.Ctx(root=ROOT, out=OUT, env=ENV, seed=seed, tier=tier, prop=prop, known=known_for, replay=replay)
@@ -190,7 +212,7 @@ def main():
         property_id=prop, tier=tier, seed=seed, level='proof',
         coverage=dict(
             obligations=pa['obligations'], discharged=pa['discharged'],
-            checker_cmd=pa['cmd'] + '  (after: make -C /verif coq; thorough tier also runs coqchk)',
+            checker_cmd=pa['cmd'] + '  (after: make -C /verif coq)' + ((' ; ' + chk['cmd'] + ' -> ' + ('clean: no axiom, no type-in-type, no unsafe fixpoint, no assumed positivity' if not chk['problems'] else 'PROBLEMS')) if chk else ' (the thorough tier also runs coqchk -silent -o on the compiled property file)'),
             trusted_base=TRUSTED_BASE,
             theorems=pa['theorems'],
             evaluations=evaluations, distinct_nontrivial=nontrivial, rule=rules,
